@@ -2,7 +2,8 @@
 """Write MANIFEST.json from props_index.json (single source of truth for what is claimed)."""
 import json, os
 V = os.path.dirname(os.path.dirname(os.path.abspath(__file__)))
-idx = json.load(open(os.path.join(V, "props_index.json")))
+import glob
+idx = {os.path.basename(p)[:-5]: json.load(open(p)) for p in glob.glob(os.path.join(V, "props", "C*.json"))}
 props = [json.loads(l)["id"] for l in open(os.path.join(V, "properties.jsonl"))]
 na = json.load(open(os.path.join(V, "not_applicable.json"))) if os.path.exists(os.path.join(V, "not_applicable.json")) else {}
 checks = []
@@ -17,8 +18,8 @@ for pid in props:
         "evidence_file": "/verif/evidence/%s.json" % pid,
         "replay_cmd_template": "./check %s --replay {path}" % pid,
         "engine": "lean4-proof+correspondence",
-        "level_claimed": {"category": P.get("level", "proof"), "text": P["level_text"], "design_ref": P.get("design_ref", "DESIGN.md §6 " + pid)},
-        "level_note": P["level_note"],
+        "level_claimed": {"category": P.get("level", "proof"), "text": P.get("level_text","tbd"), "design_ref": P.get("design_ref", "DESIGN.md §6 " + pid)},
+        "level_note": P.get("level_note","tbd"),
         "technique": P.get("technique", "Lean 4 theorem about an executable model + differential correspondence check of model vs. Go implementation"),
     })
 m = {
